@@ -50,6 +50,7 @@ def run(ctx) -> None:
     check_docstring(ctx)
     check_block_comments(ctx)
     check_line_comments(ctx)
+    check_inline_block_comments(ctx)
     check_xml_escape(ctx)
     check_taint(ctx)
     # the literal functions themselves (shared with C19): a literal that lets its delimiter, a backslash or a line end through raw
@@ -298,3 +299,48 @@ def _numeric_only(ft, n: ast.Attribute, env, stmt, parents) -> bool:
                     return True
         cur = par
     return False
+
+
+def check_inline_block_comments(ctx) -> None:
+    """A value interpolated between `/*` and `*/` on one line of a template ends the comment early if it contains `*/`.
+    Each such hole is either an identifier (names of the generated code) or sits on a path on which `"*/" not in <value>`
+    was established."""
+    from ..rules import schema as S
+
+    p = ctx.p
+    n = 0
+    for f in funcs(p, in_generators):
+        parents = None
+        art = None
+        for j in [x for x in ast.walk(f.node) if isinstance(x, ast.JoinedStr)]:
+            vals = j.values
+            for i, v in enumerate(vals):
+                if not isinstance(v, ast.FormattedValue):
+                    continue
+                before = "".join(str(x.value) for x in vals[:i] if isinstance(x, ast.Constant)).split("\n")[-1]
+                after = "".join(str(x.value) for x in vals[i + 1:] if isinstance(x, ast.Constant)).split("\n")[0]
+                if not ("/*" in before and "*/" not in before.split("/*")[-1] and "*/" in after):
+                    continue
+                n += 1
+                if parents is None:
+                    parents = S.parents_of(f)
+                    art = artefacts(ctx.ty, f)
+                    art.types.build()
+                what = f"{f.qualname}: `{short(v.value)}` inside /* ... */"
+                cur = j
+                while cur is not None and not isinstance(cur, ast.stmt):
+                    cur = parents.get(id(cur))
+                env = (art.types.env_for(cur) if cur is not None else None) or art.types.final_env()
+                t = strip_opt(art.types.type_of(v.value, env))
+                tname = t.show() if hasattr(t, "show") else str(t)
+                if "Identifier" in tname:
+                    ctx.ok("BLOCK-END", f, j, what=what + " is an identifier")
+                    continue
+                key = ast.unparse(v.value)
+                guards = S.guards_of(j, parents) + S.early_exit_guards(cur, f, parents)
+                est = any((ast.unparse(tst) == f"'*/' not in {key}" and pol) or (ast.unparse(tst) == f"'*/' in {key}" and not pol) for tst, pol in guards)
+                if est:
+                    ctx.ok("BLOCK-END", f, j, what=what + " under `'*/' not in value`")
+                else:
+                    ctx.fail("BLOCK-END", f, j, f"`{short(v.value)}` ({tname}) is interpolated between `/*` and `*/` without `\"*/\" not in {key}` on the path: a value containing `*/` ends the comment early and the rest of the line is compiled as code", construct=what)
+    ctx.extra["inline_block_comment_holes"] = n
